@@ -5,4 +5,5 @@ ACTIONS = [
     ("rm", "d"), ("rm", "g"), ("cp", "d", "d2"), ("cp", "g", "g2"), ("mv", "d", "g/m"), ("mv", "g", "h"),
     ("cp_nometa", "d", "d3"), ("cp_nometa", "g", "g3"), ("reopen",), ("boundary",), ("set_unknown", "d"), ("keep", "g/e", "F"),
     ("rm", "g/e"), ("mk", "n"), ("set", "g", "F"), ("del", "g/e", "F"),
+    ("cp_obj", "g", "/", "c"), ("cp_obj", "d", "g", "c"), ("rm_root",),
 ]
